@@ -8,7 +8,7 @@ from ..common import Result
 
 ID = "C12"
 LEVEL = "exploration"
-WORLDS = [(1, "plain"), (8, "plain")]
+WORLDS = [(1, "plain"), (3, "plain"), (8, "plain")]
 BUDGET = {"quick": dict(cases=900, fuzz_s=8), "thorough": dict(cases=20000, fuzz_s=90)}
 MIN_NONTRIVIAL = {"quick": 2000, "thorough": 30000}
 BLOB = (300, 1300)
@@ -19,7 +19,7 @@ RULE = ("Generated (Hypothesis): tables of 1-8 commands (all handler subsets, va
         "and the input cut at every byte boundary by a 40-step pause - exhaustive for that space; plus a libFuzzer campaign (world/fuzz_c12.c: the case is decoded twice from the same bytes, eager and scheduled, and compared through running hashes of output, callbacks and variables inside the target). Oracle: identical output byte stream, identical handler / "
         "variable-callback sequence with identical arguments, identical final variables, every refused byte re-offered unchanged. Non-trivial = the schedule "
         "refuses at least one read while a line is in progress and at least one write; distinct by case hash.")
-ASSUMPTIONS = ["events only when triggered by handler scripts and at most 8 per case on the capacity-8 ring, so acceptance cannot depend on timing (DESIGN 4.10); with events the command units and the event payloads are compared per producer; no HOLD (release timing is C14's)",
+ASSUMPTIONS = ["events only when triggered by handler scripts and at most 8 (3) per case on the capacity-8 (capacity-3) ring, so acceptance cannot depend on timing (DESIGN 4.10); with events the command units and the event payloads are compared per producer; no HOLD (release timing is C14's)",
                "io read reports 'nothing' as 0 without touching *ch; write refusals are 0, -1 or 2"]
 TECHNIQUE = "Hypothesis property-based testing + exhaustive enumeration of <=2 refusal placements + libFuzzer campaign; oracle = differential between the eager schedule and the generated schedule on the real library"
 LEVEL_TEXT = ("Differential testing of the real code against itself under different io schedules; small schedule perturbations (every placement of up to two "
@@ -53,14 +53,15 @@ def gen(d, tier):
         s["groups"][-1]["cmds"].append(ev)
         ei = len(S.all_cmds(s)) - 1
         ntrig = 0
+        ring = d.pick([8, 3])
         for c in S.all_cmds(s)[:-1]:
             for st in c["scripts"].values():
                 for x in st:
-                    if ntrig < 8 and d.chance(1, 2):
+                    if ntrig < ring and d.chance(1, 2):
                         x["act"], x["a1"], x["a2"] = S.WA_TRIG, ei, 0
                         ntrig += 1
         if ntrig:
-            s["qcap"] = 8
+            s["qcap"] = ring
     if (len(S.all_cmds(s)) + 3) // 4 > S.ccap(s):
         return None
     return dict(spec=s)
